@@ -31,12 +31,12 @@ func hasVar(e GExpr) bool {
 
 type rewriter struct {
 	constTest bool // the flipped test had constant operands only (it is folded by the compiler)
-	kind   string
-	target int // which site to rewrite (-1: count only)
-	seen   int
-	did    bool
-	r      *Rng
-	note   string
+	kind      string
+	target    int // which site to rewrite (-1: count only)
+	seen      int
+	did       bool
+	r         *Rng
+	note      string
 }
 
 func (w *rewriter) hit() bool {
